@@ -299,9 +299,25 @@ def stepDP (wlo whi al ws fl cs nstates otable : String) (tst : Nat) (impl : Str
         s!"{model}\t{impl}\t{drawVerdict a styled impl lo hi}"
   | _, _, _, _, _ => bad
 
+/-- `MB <text>`: both soft-wrap scanners on a text that fits on one line but for its hard breaks. The property text:
+"a hard line break always ends the current line" — `must` hard breaks inside the text (as `uniseg.FirstLineSegment` reports
+them: LF, CR, CRLF, and the classes BK / NL of UAX #14: U+2028, U+2029, U+0085, VT, FF) mean `must + 1` lines, for the plain
+and for the rich scanner.  No model output (the scanner models take the library's answers as parameters). -/
+def stepMB (impl : String) : String :=
+  let kv := (impl.splitOn ";").map fun p => p.splitOn "="
+  let get (k : String) : Option Nat := (kv.find? fun p => p.head? == some k).bind fun p => (p.getD 1 "").toNat?
+  match get "plain", get "rich", get "must" with
+  | some np, some nr, some m =>
+    let v := if np < m + 1 then s!"FAIL hard_break_ignored scanner=plain lines={np} hard-breaks={m}"
+             else if nr < m + 1 then s!"FAIL hard_break_ignored scanner=rich lines={nr} hard-breaks={m}"
+             else "ok"
+    s!"{impl}\t{impl}\t{v}"
+  | _, _, _ => s!"{impl}\t{impl}\tFAIL malformed result"
+
 def step (line : String) : String :=
   let (op, impl) := splitTab line
   match fields op with
+  | ["MB", _txt] => stepMB impl
   | ["DP", wlo, whi, al, ws, fl, cells, ns, ot, tst] => stepDP wlo whi al ws fl cells ns ot (tst.toNat?.getD 0) impl
   | ["DP", wlo, whi, al, ws, fl, cells, ns, ot] => stepDP wlo whi al ws fl cells ns ot 0 impl
   | [dw, mw, nl] =>
